@@ -4,11 +4,12 @@ claim("C01",
       "model pipeline) the tokens the model's encode produces start with {\\rtf1 and are exactly one brace-balanced top-level "
       "group, provided the bodies of its text runs are brace-neutral (the property's text domain); every structural part - code "
       "strings from the regenerated tables, paragraph formats, borders, rows, page breaks, pictures, font / colour tables, page "
-      "settings - is proved for all inputs; per row #cellx = #cell; the regenerated code tables hold only simple lower-case "
+      "settings - is proved for all inputs; C01_document_lexical - under the analogous hypothesis every control sequence of the "
+      "document is a non-empty lower-case control word or an allowed symbol (clause 3); per row #cellx = #cell; the regenerated code tables hold only simple lower-case "
       "control words. The executable model of rtf_encode is tied to the code by strict token-level correspondence "
       "(lex(rtf_encode()) = model tokens) on generated documents of all three kinds, the model's Ok / ValueError outcome must "
       "equal the implementation's, and the full predicate wf_rtf (five clauses) is evaluated on the implementation's real output.",
-      "Clauses 3-5 of wf_rtf (lexical validity, \\u ranges, row cell counts) are proved per item / table and evaluated per case, "
+      "Clauses 4-5 of wf_rtf (\\u ranges, row cell counts) are proved per escaped string / per row and evaluated per case, "
       "not proved at document level. Trusted: Coq kernel, table translator, extraction (ExtrOcamlBasic), OCaml glue, Python harness; "
       "modelled not verified: pydantic/polars/CPython primitives, Pillow widths (oracle), binary64 noise at flagged ties.",
       "Rocq proof over a Gallina model of the whole encoder + checked model/code correspondence (differential, extracted OCaml)",
